@@ -79,35 +79,38 @@ Definition op_code (o : bop) : list N :=
 Definition nlenN (l : list N) : N := N.of_nat (length l).
 
 (* (1) the emitted slots and the constants appended, when [base] constants exist already *)
-Fixpoint cexp (base : nat) (e : sexp) : list N * list konst :=
+(* [slot i]: the global slot of variable i (the identity for programs whose variables are all declared at the top level) *)
+Fixpoint cexp_at (slot : nat -> nat) (base : nat) (e : sexp) : list N * list konst :=
   match e with
   | SInt z => ([opLoadConst; N.of_nat base], [KInt z])
   | SBool b => ([if b then opTrue else opFalse], [])
   | SNil => ([opNil], [])
   | SStr t => ([opLoadConst; N.of_nat base], [KStr t])
-  | SVar i => ([opLoadGlobal; N.of_nat i], [])
-  | SNeg a => let '(ca, ka) := cexp base a in (ca ++ [opUnaryNegative], ka)
-  | SNot a => let '(ca, ka) := cexp base a in (ca ++ [opUnaryNot], ka)
+  | SVar i => ([opLoadGlobal; N.of_nat (slot i)], [])
+  | SNeg a => let '(ca, ka) := cexp_at slot base a in (ca ++ [opUnaryNegative], ka)
+  | SNot a => let '(ca, ka) := cexp_at slot base a in (ca ++ [opUnaryNot], ka)
   | SBin o a b =>
-      let '(ca, ka) := cexp base a in
-      let '(cb, kb) := cexp (base + length ka) b in
+      let '(ca, ka) := cexp_at slot base a in
+      let '(cb, kb) := cexp_at slot (base + length ka) b in
       (ca ++ cb ++ op_code o, ka ++ kb)
   | SLand a b =>
-      let '(ca, ka) := cexp base a in
-      let '(cb, kb) := cexp (base + length ka) b in
+      let '(ca, ka) := cexp_at slot base a in
+      let '(cb, kb) := cexp_at slot (base + length ka) b in
       let body := cb ++ [opBinaryOp; bAnd; opNop] in
       (ca ++ [opCopy; 0; opPopJumpForwardIfFalse; nlenN body + 2] ++ body, ka ++ kb)
   | SLor a b =>
-      let '(ca, ka) := cexp base a in
-      let '(cb, kb) := cexp (base + length ka) b in
+      let '(ca, ka) := cexp_at slot base a in
+      let '(cb, kb) := cexp_at slot (base + length ka) b in
       let body := cb ++ [opBinaryOp; bOr; opNop] in
       (ca ++ [opCopy; 0; opPopJumpForwardIfTrue; nlenN body + 2] ++ body, ka ++ kb)
   | STern c t f =>
-      let '(cc, kc) := cexp base c in
-      let '(ct, kt) := cexp (base + length kc) t in
-      let '(cf, kf) := cexp (base + length kc + length kt) f in
+      let '(cc, kc) := cexp_at slot base c in
+      let '(ct, kt) := cexp_at slot (base + length kc) t in
+      let '(cf, kf) := cexp_at slot (base + length kc + length kt) f in
       (cc ++ [opPopJumpForwardIfFalse; nlenN ct + 4] ++ ct ++ [opJumpForward; nlenN cf + 2] ++ cf, kc ++ kt ++ kf)
   end%N.
+
+Definition cexp : nat -> sexp -> list N * list konst := cexp_at (fun i => i).
 
 (* (2) the source-level value: scalars, or the class of the error raised *)
 Inductive sval := VNil | VBool (b : bool) | VInt (z : Z) | VStr (t : list N).
